@@ -219,6 +219,7 @@ spec fn post_emit_end_<'b>(pre: &ReaderState, post: &ReaderState, buf: Seq<u8>, 
 spec fn post_emit_question_mark<'b>(pre: &ReaderState, post: &ReaderState, buf: Seq<u8>, r: core::result::Result<Event<'b>, Error>) -> bool {
                 &&& post.same_control(pre) && post.same_stack(pre)
                 &&& r is Err ==> post.last_error_offset <= post.offset
+                &&& r matches Ok(ev) ==> ev_wf(ev)
                 &&& post_emit_question_mark_(pre, post, buf, r)
 }
 spec fn post_emit_question_mark_<'b>(pre: &ReaderState, post: &ReaderState, buf: Seq<u8>, r: core::result::Result<Event<'b>, Error>) -> bool {
@@ -240,6 +241,7 @@ spec fn post_emit_question_mark_<'b>(pre: &ReaderState, post: &ReaderState, buf:
 spec fn post_emit_start<'b>(pre: &ReaderState, post: &ReaderState, content: Seq<u8>, r: Event<'b>) -> bool {
                 &&& post.wf() && post.offset == pre.offset && post.config == pre.config
                 &&& post.last_error_offset == pre.last_error_offset
+                &&& ev_wf(r)
                 &&& post_emit_start_(pre, post, content, r)
 }
 spec fn post_emit_start_<'b>(pre: &ReaderState, post: &ReaderState, content: Seq<u8>, r: Event<'b>) -> bool {
